@@ -83,6 +83,8 @@ def o_parse(root: FST, sig: str, mode: str = 'exec'):
         t = ast.parse(src, mode=mode)
     except SyntaxError as e:
         fail(sig + '.src_unparsable', (src, str(e)))
+    if mode == 'eval':
+        t = t.body
     realize_tree(root.a)
     d1 = ast.dump(t, include_attributes=True)
     d2 = ast.dump(root.a, include_attributes=True)
